@@ -64,6 +64,9 @@ func loadAll(repo string, overlay map[string][]byte) (*Prog, error) {
 		return nil, err
 	}
 	P.Specs = sp
+	for _, t := range sp.Transparent {
+		P.structWhitelist[t] = true
+	}
 	registerMonitorPures(sp)
 	expandMonitorModifies(sp)
 	return P, nil
